@@ -769,15 +769,173 @@ fn gen_tostring_op(rng: &mut Rng, k: usize) -> Op {
     }
 }
 
+
+// ------------------------------------------------------------------------------------------------
+// generators that outlive the run in which they failed
+//
+// A generator runs in its own VM (spawn_shared_vm) whose bottom frame has no execution barrier: an
+// error that escapes the generator's body must pop *all* of its frames (Model: `genResume`,
+// theorem C07.generator_escaped_error_finishes), so the generator is finished. When the generator
+// value is still reachable afterwards (exported / stored in an exported container / captured by an
+// exported function) a later script or host call that asks it for another value must see the end
+// of the iteration (`null`, `()`), exactly as on an instance that performed only the completed
+// effects — never a resumption past the failure point.
+
+#[derive(Clone, Debug)]
+struct LiveGen {
+    /// expression that evaluates to the iterator in a later script (None: only reachable through `nx`)
+    access: Option<String>,
+    /// exported zero-argument function that calls `.next()` on the captured generator
+    nx: Option<String>,
+}
+
+fn gen_body(k: usize, yields: usize, fail: Option<&str>) -> String {
+    let mut s = format!("gen_{k} = ||\n");
+    for i in 1..=yields {
+        s.push_str(&format!("  yield {i}\n"));
+    }
+    match fail {
+        Some(f) => {
+            s.push_str(&indent(f, 2));
+            s.push_str("\n  yield 100\n  yield 101\n");
+        }
+        None => {
+            if yields == 0 {
+                s.push_str("  return\n  yield 0\n");
+            }
+        }
+    }
+    s
+}
+
+/// storage: 0 exported, 1 stored in an exported container, 2 captured by an exported function
+fn gen_generator_op(k: usize, storage: usize, fail_stmt: &str, fail_name: &str, yields: usize, caught: bool, live: &mut Vec<LiveGen>) -> Op {
+    let (store, iter_expr, lg) = match storage {
+        0 => (format!("export g_{k} = gen_{k}()\n"), format!("g_{k}"), LiveGen { access: Some(format!("g_{k}")), nx: None }),
+        1 => (
+            format!("reg.insert 'g_{k}', gen_{k}()\n"),
+            format!("(reg.get 'g_{k}')"),
+            LiveGen { access: Some(format!("(reg.get 'g_{k}')")), nx: None },
+        ),
+        _ => (
+            format!("it_{k} = gen_{k}()\nexport nx_{k} = || it_{k}.next()\n"),
+            format!("it_{k}"),
+            LiveGen { access: None, nx: Some(format!("nx_{k}")) },
+        ),
+    };
+    let drive = format!("for x_{k} in {iter_expr}\n  acc.push x_{k}\n");
+    let store_ev = match storage {
+        0 => format!("cn:3 nr:1 ex:{} ", 4000 + k),
+        1 => "cn:3 nr:1 cn:4 nr:1 ".to_string(),
+        _ => format!("cn:3 nr:1 ex:{} ", 5000 + k),
+    };
+    let pushes = "cn:3 nr:1 ".repeat(yields);
+    live.push(lg);
+    if caught {
+        let text = format!("{}{store}r_{k} = try\n{}catch e\n  'caught'\nr_{k}\n", gen_body(k, yields, Some(fail_stmt)), indent(&drive, 2) + "\n  'finished'\n");
+        Op {
+            kind: OpKind::Run,
+            text,
+            ref_text: None,
+            args: vec![],
+            events: format!("enter:0:0:k0 nf:8 {store_ev}ts:1:90 {pushes}raise:1 te ret"),
+            runs_tests: true,
+            expect: "ok".into(),
+            err_contains: None,
+            ok_value: Some(format!("ok:s{}", kvh::hex(b"caught"))),
+            residue_class: String::new(),
+            adds_tests: 0,
+            tags: vec!["generator-outlives".into(), format!("kind={fail_name}"), format!("gen-storage={storage}"), format!("gen-yields={yields}"), "catch=yes".into()],
+        }
+    } else {
+        let text = format!("{}{store}{drive}", gen_body(k, yields, Some(fail_stmt)));
+        // completed effects: the generator yielded `yields` values and is finished
+        let reft = format!("{}{store}{drive}", gen_body(k, yields, None));
+        Op {
+            kind: OpKind::Run,
+            text,
+            ref_text: Some(reft),
+            args: vec![],
+            events: format!("enter:0:0:k0 nf:8 {store_ev}{pushes}raise:1"),
+            runs_tests: false,
+            expect: "err".into(),
+            err_contains: None,
+            ok_value: None,
+            residue_class: String::new(),
+            adds_tests: 0,
+            tags: vec!["generator-outlives".into(), format!("kind={fail_name}"), format!("gen-storage={storage}"), format!("gen-yields={yields}"), "catch=no".into()],
+        }
+    }
+}
+
+/// a later request for another value from a generator whose body raised: must be finished
+fn gen_next_op(rng: &mut Rng, lg: &LiveGen) -> Op {
+    let mk_run = |text: String, value: &str, tag: &str| Op {
+        kind: OpKind::Run,
+        text,
+        ref_text: None,
+        args: vec![],
+        events: "enter:0:0:k0 nf:4 cn:3 nr:1 ret".into(),
+        runs_tests: true,
+        expect: "ok".into(),
+        err_contains: None,
+        ok_value: Some(value.to_string()),
+        residue_class: String::new(),
+        adds_tests: 0,
+        tags: vec!["generator-next-after-failure".into(), tag.into()],
+    };
+    match (&lg.access, &lg.nx) {
+        (Some(a), _) => match rng.below(3) {
+            0 => mk_run(format!("{a}.next()\n"), "ok:null", "via=next"),
+            1 => mk_run(format!("{a}.to_tuple()\n"), "ok:(t)", "via=to_tuple"),
+            _ => mk_run(format!("n = 0\nfor x in {a}\n  n += 1\nn\n"), "ok:i0", "via=for"),
+        },
+        (None, Some(nx)) => {
+            if rng.chance(1, 2) {
+                Op {
+                    kind: OpKind::CallExported,
+                    text: nx.clone(),
+                    ref_text: None,
+                    args: vec![],
+                    events: "enter:1:0:k0 nf:2 cn:2 nr:1 ret".into(),
+                    runs_tests: false,
+                    expect: "ok".into(),
+                    err_contains: None,
+                    ok_value: Some("ok:null".into()),
+                    residue_class: String::new(),
+                    adds_tests: 0,
+                    tags: vec!["generator-next-after-failure".into(), "via=host-call".into()],
+                }
+            } else {
+                mk_run(format!("{nx}()\n"), "ok:null", "via=captured-fn")
+            }
+        }
+        _ => mk_run("null\n".into(), "ok:null", "via=none"),
+    }
+}
+
 fn gen_history(rng: &mut Rng, mod_dir: &str, max_native_err: usize) -> History {
     let n = 5 + rng.below(36);
     let mut ops = vec![setup_op()];
     let mut native_err = 0;
+    let mut live: Vec<LiveGen> = vec![];
     for k in 1..=n {
-        let op = match rng.weighted(&[60, 30, 10]) {
+        let op = match rng.weighted(&[52, 26, 8, 7, if live.is_empty() { 0 } else { 7 }]) {
             0 => gen_run_op(rng, k, true),
             1 => gen_call_op(rng, k),
-            _ => gen_tostring_op(rng, k),
+            2 => gen_tostring_op(rng, k),
+            3 => {
+                let mut fk = fail_kind(rng.below(N_FAIL_KINDS), k);
+                let caught = rng.chance(1, 3);
+                if caught && !fk.catch_ok {
+                    fk = fail_kind(0, k);
+                }
+                gen_generator_op(k, rng.below(3), &fk.stmt, fk.name, rng.below(4), caught, &mut live)
+            }
+            _ => {
+                let lg = live[rng.below(live.len())].clone();
+                gen_next_op(rng, &lg)
+            }
         };
         // generation filter (F-C07-1): keep the accumulated register residue far from the u8 wrap
         // (only relevant while F-C07-1 is open; `max_native_err` is usize::MAX once it is fixed)
@@ -823,6 +981,18 @@ fn gen_timeout_history(rng: &mut Rng, mod_dir: &str) -> History {
             adds_tests: 0,
             tags: vec!["timeout".into(), format!("timeout-shape={name}")],
         });
+    }
+    // a generator that hits the execution limit on a resumption and outlives the failed run
+    let k = 900 + rng.below(50);
+    let mut live = vec![];
+    let storage = rng.below(3);
+    let yields = rng.below(3);
+    let mut op = gen_generator_op(k, storage, "loop\n  z = 1", "timeout", yields, false, &mut live);
+    op.err_contains = Some("xecution".into());
+    op.tags.push("timeout".into());
+    ops.push(op);
+    for _ in 0..2 {
+        ops.push(gen_next_op(rng, &live[0]));
     }
     History { ops, limit_ms: 40, mod_dir: mod_dir.to_string() }
 }
@@ -1523,6 +1693,35 @@ fn main() {
         }
         let h = History { ops, limit_ms: 0, mod_dir: mod_dir_s.clone() };
         cx.run_history(&h, false, "sweep:imports");
+    }
+
+    // 1a. generators that outlive their failure: storage x failure kind x resumption x caught
+    {
+        let mut k = 300usize;
+        for storage in 0..3 {
+            let mut ops = vec![setup_op()];
+            let mut live: Vec<LiveGen> = vec![];
+            for fi in 0..N_FAIL_KINDS {
+                for (yields, caught) in [(0usize, false), (1, false), (2, true), (3, false)] {
+                    k += 1;
+                    let fk = fail_kind(fi, k);
+                    if caught && !fk.catch_ok {
+                        continue;
+                    }
+                    ops.push(gen_generator_op(k, storage, &fk.stmt, fk.name, yields, caught, &mut live));
+                    let lg = live.last().unwrap().clone();
+                    ops.push(gen_next_op(&mut rng, &lg));
+                    ops.push(gen_next_op(&mut rng, &lg));
+                }
+            }
+            // and once more for every generator, after everything else
+            let all = live.clone();
+            for lg in &all {
+                ops.push(gen_next_op(&mut rng, lg));
+            }
+            let h = History { ops, limit_ms: 0, mod_dir: mod_dir_s.clone() };
+            cx.run_history(&h, false, &format!("sweep:generator-outlives-storage{storage}"));
+        }
     }
 
     // 1b. F-C07-1 regression shape: 120 failing host-initiated calls, then good calls and probes
